@@ -9,7 +9,7 @@ tier = "thorough" if "--thorough" in sys.argv else "quick"
 dirs = [V / "seeded" / n for n in names] if names else sorted((V / "seeded").iterdir())
 for d in dirs:
     meta = json.loads((d / "meta.json").read_text())
-    prop = meta["property"]
+    prop = meta.get("check_property", meta["property"])
     if subprocess.run(["git", "-C", "/repo", "diff", "--quiet"]).returncode:
         sys.exit("/repo dirty")
     if subprocess.run(["git", "-C", "/repo", "apply", str(d / "patch.diff")]).returncode:
